@@ -136,6 +136,10 @@ def run(chk):
         okr = bool(mass) and ret == mass[0].value / vol / P.const(Fraction("0.6022"))
         chk.ob("R13.5", CR, "Crystal.density", "density = mass / volume / 0.6022 (g/cm^3 from amu/A^3)", okr, found=str(ret)[:160])
     chk.assume("coincidence of atoms between the two descriptions (geometry) is not decided")
+    chk.rule("R13.6", "memo discipline of class Crystal (= C14 R14.2): every state-changing method drops every memoised quantity, including any newly introduced cache", 2)
+    if chk.want("R13.6"):
+        from .c14 import crystal_memo_rule
+        crystal_memo_rule(chk, "R13.6")
 
 
 def t13_2(chk, T):
